@@ -105,6 +105,11 @@ func (sfc *StructFieldsCopy) createFieldSnippet(f *types.Var) snippet.Snippet {
 			// always gen
 			fc.HasDeepCopyInto = true
 			fc.HasDeepCopy = true
+
+			// the shape of the generated methods follows from the underlying type,
+			// not from methods a previous run may have left behind
+			_, isMap := x.Underlying().(*types.Map)
+			fc.PtrResultOrParam = !isMap
 		}
 		if fc.PtrResultOrParam && fc.HasDeepCopyInto {
 			return snippet.T(`
